@@ -260,11 +260,21 @@ class Defs(object):
         return out
 
 
-def _static_compare(val, other, op, fold):
-    """Outcome of ``val <op> other`` when it can be told from the two expressions alone, else _UNDECIDED."""
+def _static_compare(val, other, op, fold, ident=None):
+    """Outcome of ``val <op> other`` when it can be told from the two expressions alone, else _UNDECIDED.
+    ``ident(e)``: a token naming the object ``e`` denotes when that is one fixed object of the module (a function / class
+    defined once at module level, None), else None -- two different tokens are two different objects."""
     eq = isinstance(op, (ast.Eq, ast.Is))
     if not isinstance(op, (ast.Eq, ast.Is, ast.NotEq, ast.IsNot)):
         return _UNDECIDED
+    if ident is not None:
+        ia, ib = ident(val), ident(other)
+        if ia is not None and ib is not None:
+            kinds = set([ia[0], ib[0]])
+            if kinds == {'def'} or kinds == {'const'}:
+                return (ia == ib) if eq else (ia != ib)      # (a function object equals only itself)
+            if kinds in ({'def', 'const'}, {'obj', 'const'}):
+                return not eq                                  # a function / the result of a never-None call is not None
     if _is_simple_value(val) and not isinstance(val, ast.Constant) and norm(val) == norm(other):
         return eq
     if _is_simple_value(val) and not isinstance(val, ast.Constant):
@@ -325,7 +335,7 @@ def _between_conds(cfg, defs, name, st, node):
     return expand_conds(out)
 
 
-def refine_conds(cfg, defs, node, cs, fold, rounds=4):
+def refine_conds(cfg, defs, node, cs, fold, rounds=4, ident=None):
     """Reaching-definition refinement of path conditions.
 
     For a condition ``v <op> e`` (== / != / is / is not, v a plain local) known with polarity p at ``node``: every
@@ -355,7 +365,7 @@ def refine_conds(cfg, defs, node, cs, fold, rounds=4):
             for st, val, mid in rd:
                 if cfg._kills(val, mid) or cfg._kills(other, mid):
                     continue
-                o = _static_compare(val, other, t.ops[0], fold)
+                o = _static_compare(val, other, t.ops[0], fold, ident)
                 if o is not _UNDECIDED and o is not p:
                     ruled.setdefault(side.id, set()).add(id(st))
         # ... and a local with a single definition left stands for that definition
@@ -487,6 +497,72 @@ class DispatchView(object):
         v = self.repo.try_fold(e, self.app, _UNDECIDED)
         return v
 
+    def never_none(self, call):
+        """The call names a function of the analysed tree (clastic or the pinned third-party source) that cannot return
+        None: every way through it ends in ``return <local>`` after an attribute of that local was read or written (which
+        raises on None), the local bound once."""
+        if not (isinstance(call, ast.Call) and isinstance(call.func, ast.Name)):
+            return False
+        cache = self.__dict__.setdefault('_never_none', {})
+        if call.func.id in cache:
+            return cache[call.func.id]
+        cache[call.func.id] = res = False
+        try:
+            kind, m, fi = self.repo.resolve(self.app, call.func.id)
+            if kind == 'func' and fi is not None and not any(isinstance(n, (ast.Yield, ast.YieldFrom)) for n in walk_body(fi.node)):
+                c = cfg_of(fi)
+                rets = [s_ for s_ in stmts_of(fi.node) if isinstance(s_, ast.Return)]
+                res = bool(rets) and c.must_pass(c.nodes_of_all(rets), c.entry, c.exit, normal_only=True)
+                for r in rets:
+                    v = r.value
+                    if not isinstance(v, ast.Name) or len(assigned_value(fi.node, v.id)) != 1 or v.id in fi.params():
+                        res = False
+                        break
+                    derefs = [s_ for s_ in stmts_of(fi.node) if not isinstance(s_, (ast.If, ast.For, ast.While, ast.Try, ast.With)) and
+                              any(isinstance(n, ast.Attribute) and isinstance(n.value, ast.Name) and n.value.id == v.id for n in ast.walk(s_))]
+                    if not derefs or not c.must_pass(c.nodes_of_all(derefs), c.entry, c.nodes_of(r)):
+                        res = False
+                        break
+        except Exception:
+            res = False
+        cache[call.func.id] = res
+        return res
+
+    def ident(self, e):
+        """('def', name) for a name that denotes one fixed function / class of the module (defined once at module level,
+        never re-bound, not a local of dispatch); ('const', None) for None; ('obj', ..) for a call that cannot return None;
+        else None"""
+        if isinstance(e, ast.Constant) and e.value is None:
+            return ('const', None)
+        if isinstance(e, ast.Call):
+            if self._locals is None:
+                self.fold(e.func)
+            if isinstance(e.func, ast.Name) and e.func.id not in self._locals and self.never_none(e):
+                return ('obj', id(e))
+            return None
+        if not isinstance(e, ast.Name):
+            return None
+        if self._locals is None:
+            self.fold(e)
+        if e.id in self._locals:
+            return None
+        if getattr(self, '_top_defs', None) is None:
+            counts = {}
+            for n in ast.walk(self.app.tree):
+                k = n.id if isinstance(n, ast.Name) and isinstance(n.ctx, (ast.Store, ast.Del)) else \
+                    n.name if isinstance(n, (ast.FunctionDef, ast.AsyncFunctionDef, ast.ClassDef)) else \
+                    n.arg if isinstance(n, ast.arg) else None
+                if k is not None:
+                    counts[k] = counts.get(k, 0) + 1
+                if isinstance(n, (ast.Global, ast.Nonlocal)):
+                    for x in n.names:
+                        counts[x] = counts.get(x, 0) + 2
+                if isinstance(n, ast.alias):
+                    k2 = (n.asname or n.name).split('.')[0]
+                    counts[k2] = counts.get(k2, 0) + 1
+            self._top_defs = set(st.name for st in self.app.tree.body if isinstance(st, (ast.FunctionDef, ast.ClassDef)) and counts.get(st.name) == 1)
+        return ('def', e.id) if e.id in self._top_defs else None
+
     # -- path sensitivity over tagged outcomes -------------------------------------------------------------
     def latest_defs_from(self, name, src_nodes, node, within=None):
         """Definitions of the plain local ``name`` that can be the most recent one when control arrives at ``node`` from
@@ -546,16 +622,26 @@ class DispatchView(object):
             if nd.kind != 'branch' or nd.id not in reach:
                 continue
             for t, p in expand_conds([(nd.test, nd.pol)]):
-                if not (isinstance(t, ast.Compare) and len(t.ops) == 1 and isinstance(t.ops[0], (ast.Eq, ast.NotEq))):
+                if not (isinstance(t, ast.Compare) and len(t.ops) == 1 and isinstance(t.ops[0], (ast.Eq, ast.NotEq, ast.Is, ast.IsNot))):
                     continue
                 for side, other in ((t.left, t.comparators[0]), (t.comparators[0], t.left)):
                     if not isinstance(side, ast.Name):
                         continue
                     c2 = const(other)
+                    if isinstance(t.ops[0], (ast.Is, ast.IsNot)):
+                        # identity with None / a module-level function: decided from the definitions' expressions
+                        cands = self.latest_defs_from(side.id, src_nodes, nd.id) if self.ident(other) is not None else None
+                        if cands and all(_static_compare(val, other, t.ops[0], self.fold, self.ident) is (not p) for st, val in cands):
+                            out.add(nd.id)
+                        continue
                     if c2 is _UNDECIDED:
                         continue
                     cands = self.latest_defs_from(side.id, src_nodes, nd.id)
                     if not cands:
+                        continue
+                    decided = [_static_compare(val, other, t.ops[0], self.fold, self.ident) for st, val in cands]
+                    if all(o is not _UNDECIDED and o is (not p) for o in decided):
+                        out.add(nd.id)
                         continue
                     outcomes = []
                     for st, val in cands:
@@ -716,7 +802,7 @@ class DispatchView(object):
         for n in self.cfg.nodes_of(st):
             if not self.cfg.reachable(n):
                 continue
-            cs = refine_conds(self.cfg, self.defs, n, self.cfg.conds_at(n), self.fold)
+            cs = refine_conds(self.cfg, self.defs, n, self.cfg.conds_at(n), self.fold, ident=self.ident)
             keyed = dict(((norm(t), p), (t, p)) for t, p in cs)
             res = keyed if res is None else dict((k, v) for k, v in res.items() if k in keyed)
         return list((res or {}).values())
@@ -733,7 +819,7 @@ class DispatchView(object):
         cs = self.cfg._expand_named(cs, nid)
         if full:
             cs = self.cfg.conds_at(nid) + cs
-        res = self._bc[key] = refine_conds(self.cfg, self.defs, nid, cs, self.fold)
+        res = self._bc[key] = refine_conds(self.cfg, self.defs, nid, cs, self.fold, ident=self.ident)
         return res
 
     # -- predicates on condition tests -------------------------------------------------------------------
